@@ -160,8 +160,12 @@ def _r2(ctx, P):
     uop = U(ul.target)
     ports_def = d.get("ports")
     ind = d.get("indices")
-    ok = ports_def is not None and U(ports_def.value) in ("list(%s[1])" % uop, "%s[1]" % uop) and ind is not None and U(ind.value) == \
-        "[port_list.index(p) for p in ports]"
+    # every definition of `indices` in the micro-op loop is the full comprehension or a filter of `indices` itself
+    ind_defs = [a for a in ast.walk(ul) if isinstance(a, ast.Assign) and U(a.targets[0]) == "indices"]
+    full = [a for a in ind_defs if U(a.value) == "[port_list.index(p) for p in ports]"]
+    filt = [a for a in ind_defs if pm.match("[M_x for M_x in indices if M_c]", a.value) is not None]
+    ok = ports_def is not None and U(ports_def.value) in ("list(%s[1])" % uop, "%s[1]" % uop) and len(full) == 1 and len(full) + len(
+        filt) == len(ind_defs) and full[0] in ul.body and all(C.cfg_of(f).dominates(full[0], x) for x in filt)
     pl = [a for a in C.assigns_to(f.node, "port_list")]
     ok = ok and bool(pl) and U(pl[0].value) == "self._machine_model.get_ports()"
     ctx.check(ok, "R2", "indices = positions of the micro-op's own ports in the model's port list", f.where(ul),
@@ -251,7 +255,8 @@ def _r3(ctx, P):
     ctx.check(ok, "R3", "port_sums and instr_ports are views of the kernel totals / the instruction's pressure at `indices`", f.where(),
               "port_sums / instr_ports are not both itemgetter(*indices) views", f.qname, "parallel views")
     dif = [a for a in ast.walk(P["uop_loop"]) if isinstance(a, ast.Assign) and U(a.targets[0]) == "differences"]
-    ctx.check(bool(dif) and U(dif[0].value) == "[cycles / len(ports) for p in ports]", "R3",
+    ctx.check(bool(dif) and pm.match("[cycles / len(ports) for M_x in M_s]", dif[0].value) is not None and U(
+        pm.match("[cycles / len(ports) for M_x in M_s]", dif[0].value)["M_s"]) in ("ports", "indices"), "R3",
               "cap per port = the uniform share cycles / len(ports)", f.where(dif[0]) if dif else f.where(),
               "the per-port cap is %s" % (U(dif[0].value) if dif else None), f.qname, "cap definition")
     refresh = [a for a in sl.body if isinstance(a, ast.Assign) and U(a.targets[0]) == "port_sums"]
